@@ -432,6 +432,8 @@ def install(eng):
             items = None
             if isinstance(a0, (dict, immutables.Map)) and not kw:
                 items = list(a0.items())
+            elif isinstance(a0, type({}.items())) and not kw:
+                items = list(a0)
             elif isinstance(a0, SymDict):
                 items = list(a0.items)
             elif isinstance(a0, (tuple, list)) and all(isinstance(p, tuple) and len(p) == 2 for p in a0) and not kw:
@@ -611,7 +613,17 @@ def install(eng):
             kk = ks[i]
             r = z3.Select(m, kk)
             st_.assume(eng.external_ref_fact(st_, kk), eng.external_ref_fact(st_, r))
-            return (typed_key(eng, st_, kk, "items"), SV(r))
+            vt_ = getattr(eng, "value_type", None)
+            if callable(vt_) and not hasattr(vt_, "pred"):
+                vt_ = vt_(eng, st_, args[0])
+            hint = None
+            if vt_ is not None:
+                if hasattr(vt_, "bind"):
+                    vt_.bind(eng)
+                eng.oblige(st_, f"declared value type {vt_.name} of the iterated map's values follows from the preconditions", vt_.pred(r), "value-type")
+                st_.assume(vt_.pred(r))
+                hint = vt_.hint
+            return (typed_key(eng, st_, kk, "items"), SV(r, hint=hint))
 
         it = SymIter(None, length=ks.n, item=item, label="items")
         it.keys_seq = ks
